@@ -60,8 +60,8 @@ func Run(sc Scenario) (lines []any) {
 
 	parent, cancelParent := context.WithCancel(context.Background())
 	defer cancelParent()
-	schema := am.Schema{"A": {}, "B": {}, "C": {Multi: true}, "W": {}}
-	names := am.S{"A", "B", "C", "W", am.StateException}
+	schema := am.Schema{"A": {}, "B": {}, "C": {Multi: true}, "W": {}, "Start": {}}
+	names := am.S{"A", "B", "C", "W", "Start", am.StateException}
 	m := am.New(parent, schema, &am.Opts{Id: "d", HandlerTimeout: 3 * time.Second})
 	_ = m.VerifyStates(names)
 	m.DisposeTimeout = 150 * time.Millisecond
@@ -117,7 +117,7 @@ func Run(sc Scenario) (lines []any) {
 	if sc.Handlers {
 		neg := map[string]am.HandlerNegotiation{
 			"AEnter": func(e *am.Event) bool {
-				if sc.Landing == "negotiation" {
+				if sc.Landing == "negotiation" || sc.Landing == "evalQueued" {
 					inHandler <- struct{}{}
 					<-release
 				}
@@ -128,6 +128,8 @@ func Run(sc Scenario) (lines []any) {
 			},
 		}
 		fin := map[string]am.HandlerFinal{
+			"StartState": func(e *am.Event) {},
+			"StartEnd":   func(e *am.Event) {},
 			"AState": func(e *am.Event) {
 				if sc.Landing == "final" {
 					inHandler <- struct{}{}
@@ -141,6 +143,7 @@ func Run(sc Scenario) (lines []any) {
 		_, _ = m.HandlersBindMaps(neg, fin)
 	}
 	m.Add1("B", nil)
+	m.Add1("Start", nil)
 
 	// outstanding waiters
 	chans := map[string]<-chan struct{}{}
@@ -232,6 +235,33 @@ func Run(sc Scenario) (lines []any) {
 		case <-evalIn:
 		case <-time.After(2 * time.Second):
 		}
+		how()
+		time.Sleep(30 * time.Millisecond)
+		close(release)
+	case "evalQueued":
+		// an Eval with a live caller context waits in the queue behind a blocked handler
+		if !sc.Handlers {
+			close(workDone)
+			how()
+			break
+		}
+		sc2 := sc
+		sc2.Landing = "negotiation"
+		_ = sc2
+		go func() {
+			defer func() { recover() }()
+			m.Add1("A", nil)
+		}()
+		select {
+		case <-inHandler:
+		case <-time.After(2 * time.Second):
+		}
+		live, cancelLive := context.WithCancel(context.Background())
+		defer cancelLive()
+		startWork(func() {
+			m.Eval("verif-queued", func() {}, live)
+		})
+		time.Sleep(20 * time.Millisecond)
 		how()
 		time.Sleep(30 * time.Millisecond)
 		close(release)
